@@ -47,3 +47,18 @@ def replay(pid, payload):
         return 1
     print("replay: no mismatch")
     return 0
+
+
+
+def box_objects(chk, focus, depth):
+    """Operation histories on one box object (gen_vertices / turn / move / resize / clone): results must depend on the
+    current geometry only (spec/geom/GenObj.tla, `vh replay boxobj`)."""
+    cfg = vlib.write_cfg(chk.workdir / "genobj.cfg", {"D": depth}, invariants=["Emit"])
+    r = vlib.tlc(vlib.SPEC / "geom" / "GenObj.tla", cfg, "genobj", chk.workdir, workers=6, timeout=900)
+    vlib.tlc_must_pass(r, "GenObj")
+    chk.add_tlc("GenObj", r)
+    args = ["replay", "boxobj", "--focus", focus]
+    rep = vlib.run_vh(args, [r.out])
+    chk.add_report("box-objects", rep)
+    chk.classify("boxobj", args, rep)
+    return rep
